@@ -65,6 +65,7 @@ func init() {
 			add(ShutdownParams{Case: "reopen", Checkpoint: "auto", Membership: "dynamic"}, 4)
 			add(ShutdownParams{Case: "rebalance", Checkpoint: "auto", Membership: "static"}, 4)
 			add(ShutdownParams{Case: "rebalance", Checkpoint: "auto", Mitigation: true, Membership: "dynamic"}, 4)
+			add(ShutdownParams{Case: "absorbed", Checkpoint: "auto", Membership: "static", MaxPoint: 2}, 1)
 			add(ShutdownParams{Case: "pingfail", Checkpoint: "auto", Health: true, Membership: "static", MaxPoint: 40}, 4)
 			add(ShutdownParams{Case: "rebalance2", Checkpoint: "auto", Membership: "static", MaxPoint: 3}, 1)
 			add(ShutdownParams{Case: "notifyduringclose", Checkpoint: "auto", Membership: "dynamic", MaxPoint: 120}, 4)
@@ -342,6 +343,16 @@ func shutdownMain(p ShutdownParams) {
 			dcpStream(e).Rebalance()
 		})
 		vrt.Sleep(o.RebalanceDelay / 2)
+	case "absorbed":
+		// the only unsaved progress is an event the library settles itself (seqno-advanced / a collection
+		// system event): the closing save stores it
+		e.D.Commit() // everything acknowledged so far is stored: nothing is flagged any more
+		c.WaitIdle()
+		c.Append(0, marker(3, 3), symbolPacket([]string{"SEQ", "CC"}[k%2], 3))
+		c.WaitIdle()
+		vrt.Quiesce()
+		doClose()
+		settledAtCall[0] = 3
 	case "pingfail":
 		// the cluster stops answering pings; Close() arrives at every point of the health checker (between
 		// attempts, inside the retry wait, inside a ping). A crash is legitimate only after five failed pings
